@@ -1,147 +1,241 @@
-/* C15: Subprocess::communicate, parent side, against a nondeterministic OS model (no stdin payload: stdin_size == 0).
- * The child is an automaton with a symbolic script: it writes W (<= WMAX) symbolic bytes to its stdout in solver-chosen
- * chunks at solver-chosen moments (one "child step" happens inside every OS call the parent makes) and exits with a
- * symbolic status once everything is written, at a solver-chosen moment. Pipe semantics: bytes written before the exit stay
- * readable after it; read() delivers 1..min(requested, available) bytes, 0 once the writer is gone and the pipe is empty;
- * poll() reports POLLIN / POLLHUP exactly for that state, returns 0 on timeout, and with an infinite timeout blocks until
- * the child's next action (fair child); waitpid(WNOHANG) returns 0 until the child has exited, then the pid once; blocking
- * waitpid lets the child run to completion; kill(SIGKILL) ends the child; gettimeofday is arbitrary but non-decreasing.
- * TIMEOUT cell: 0 = no deadline, else microseconds.
- * Oracle: without a deadline communicate must return (no exception) exactly the W bytes the child wrote, in order, and the
- * child must have been reaped with the model's wait status. With a deadline it may instead throw, but only if some
- * observed clock value reached the deadline; if it returns, the result is again all W bytes. Never a partial result. */
+/* C15: Subprocess::communicate, parent side, against a nondeterministic OS model.
+ *
+ * Cell (concrete, one query each): W = number of stdout bytes, EVS = the child's script as a string of event kinds,
+ * IN_N = stdin payload size, TIMEOUT (0 = no deadline), optionally SCHED = when the events happen.
+ * Symbolic inside a cell: the bytes, the chunk sizes of the child's writes (each >= 1, sum W), how many bytes every
+ * read()/write() moves (1..possible), the wait status (any exit code / terminating signal), the clock, the stdin pipe
+ * capacity and - unless SCHED is given - the OS call at which every child event happens.
+ *
+ * Child script EVS, executed in order, event i not later than the parent's OS call number at[i] (OS calls = gettimeofday,
+ * waitpid, poll, read, write; the child runs "inside" them) and earlier when a blocking call of the parent needs it
+ * (the child is fair: it eventually does its next step):
+ *   w  write the next chunk to stdout            c  close stdout
+ *   r  read 1..all bytes waiting in its stdin (blocks while the pipe is empty and the parent holds the write end open)
+ *   e  read stdin until end-of-file (blocks until the parent has closed the write end; consumes everything)
+ *   k  close stdin                               x  exit (closes everything), wait status symbolic; always last
+ * Pipes: bytes written before exit/close stay readable; read() returns 1..min(requested, available), 0 at EOF (writer gone
+ * and empty) and must not be called on an empty pipe with a live writer (it would block: assertion). The stdin pipe holds
+ * at most CAP bytes (symbolic 1..IN_N); write() moves 1..min(n, room) bytes, fails with EPIPE once the child closed its
+ * end, and must not be called without room (it would block: assertion). poll() reports POLLIN (data), POLLHUP (writer
+ * gone), POLLOUT (room) and POLLERR (reader gone) exactly for that state; timeout -1 blocks until the child's next steps
+ * make something ready - if the child cannot step or has nothing left to do: "deadlock" assertion; timeout 0 returns at
+ * once; timeout > 0 either lets child steps make something ready in time or the full timeout elapses. waitpid(WNOHANG) = 0
+ * until the exit, then the pid once (a second successful reap is an assertion); blocking waitpid runs the child to its
+ * exit (cannot: deadlock assertion). kill(SIGKILL) ends the child at once; kill on a reaped child = ESRCH.
+ * Clock: every value is a multiple of 1 ms (CLOCK_UNIT); any OS call may take 0..3 ms, a poll that times out takes at
+ * least its timeout. (With a microsecond clock communicate's last millisecond is a busy loop of poll(0) calls - unbounded
+ * in any model; the granularity is what bounds the loop. TIMEOUT is a multiple of 1 ms.)
+ *
+ * Oracle: no deadline: communicate returns (no exception) exactly the W bytes, in order. Always: at most TMAX OS calls
+ * (no livelock), child reaped exactly once when the Subprocess is gone, every descriptor closed at most once, the fd
+ * members are -1 exactly for closed descriptors, the stdin write end is closed as soon as the payload is delivered (before
+ * the next OS call) and also when there is no payload; the cached status is the model's. With a deadline: an exception is
+ * allowed only after gettimeofday returned a value >= first value + TIMEOUT, and only after the child was SIGKILLed. */
 #include "harness.h"
 #include "env_msg.h"
 #ifndef VERIF_NATIVE_REAL
-/* generated C only (spec: cuts): message-text helpers. io_error(int) formats "io error on fd N: ..."; string_for_error(errno)
- * returns "<n> (<strerror>)" and is used only inside exception messages ("poll failed: ...", "kill failed: ...",
- * "waitpid failed: ..."); its model returns an empty std::string (libstdc++ SSO layout: pointer to the in-object buffer,
- * size 0, NUL). Exception TEXT is not part of the claim; throw sites, types and control flow are encoded. */
+/* generated C only (spec: cuts): message-text helpers, see NOTES.md. Exception TEXT is not part of the claim. */
 void X__ZN5phosg8io_errorC1Ei(uint8_t* self, uint32_t fd) { (void)self; (void)fd; }
 void X__ZN5phosg16string_for_errorB5cxx11Ei(uint8_t* sret, uint32_t err) { (void)err; *(uint8_t**)sret = sret + 16; *(uint64_t*)(sret + 8) = 0; sret[16] = 0; }
 #endif
 int64_t w_communicate(uint32_t stdin_fd, uint32_t stdout_fd, uint32_t pid, uint8_t* in, uint64_t in_n, uint64_t timeout_usecs,
-    uint8_t* out, uint64_t cap, int64_t* out_status);
+    uint8_t* out, uint64_t cap, int64_t* st);
 
 #ifdef VERIF_NATIVE_REAL
 int* __errno_location(void);
-#define __errno_location_() ((uint8_t*)__errno_location())
+#define SET_ERRNO(v) (*__errno_location() = (v))
 #else
 uint8_t* X___errno_location(void);
-#define __errno_location_() X___errno_location()
+#define SET_ERRNO(v) (*(int32_t*)X___errno_location() = (v))
 #endif
 #define IN_FD 7
 #define OUT_FD 8
 #define PID 1234
-#ifndef TMAX
-#define TMAX 12 /* OS calls with a scheduled child step */
-#endif
 #define POLLIN_ 1
 #define POLLOUT_ 4
 #define POLLERR_ 8
 #define POLLHUP_ 16
 #define WNOHANG_ 1
+#define CLOCK_UNIT 1000u
+#ifndef W
+#define W 1
+#endif
+#ifndef IN_N
+#define IN_N 0
+#endif
+#ifndef TIMEOUT
+#define TIMEOUT 0
+#endif
+#ifndef EVS
+#define EVS "wx"
+#endif
+#ifndef CAP
+#define CAP (IN_N ? IN_N : 1) /* stdin pipe capacity in bytes */
+#endif
+#ifndef TMAX
+#define TMAX 16
+#endif
+#define NEV ((int)sizeof(EVS) - 1)
+static const char evs[] = EVS;
+#ifdef SCHED
+static const char sched[] = SCHED; /* digit i = OS call index (base 36) at which event i happens at the latest */
+#endif
 
-static uint8_t data[WMAX + 1];
-static uint64_t W;               /* script length */
-static uint64_t written, consumed; /* bytes the child has written / the parent has read */
-static int exited, reaped, killed;
-static uint32_t status;          /* wait status reported at reaping */
-static int t;                    /* OS call counter */
-static uint8_t sched_wr[TMAX + 1], sched_ex[TMAX + 1], sched_rd[TMAX + 1];
-static uint64_t clock_inc[TMAX + 1];
-static uint64_t clock_us, clock_max_seen, start_clock;
-static int closed_in, closed_out, os_calls_bound_hit;
+static uint8_t data[W + 1], payload[IN_N + 1], got_in[IN_N + 1];
+static uint64_t chunk[NEV + 1];
+static int at[NEV + 1];
+static int next_ev;                /* child program counter */
+static uint64_t written, consumed; /* stdout pipe */
+static uint64_t delivered, child_read, in_cap; /* stdin pipe */
+static int out_writer_open = 1, in_reader_open = 1, exited, reaped, killed, reap_count;
+static uint32_t status;
+static int t; /* OS call counter */
+static uint8_t mv2[TMAX + 1], mv3[TMAX + 1], fire_n[TMAX + 1]; /* per OS call: move a 2nd / a 3rd byte if possible; child steps during a timed poll */
+static uint8_t clk_inc[TMAX + 1];
+static uint64_t clock_us, first_clock, clock_seen_max;
+static int clock_read;
+static int closed_in, closed_out;
 
-static int tick(void) { /* index of this OS call in the schedule */
-  ASSERT(t < TMAX, "BOUND: number of OS calls");
+static int tick(void) {
+  ASSERT(t < TMAX, "BOUND: number of OS calls (no livelock inside the bound)");
   ASSUME(t < TMAX);
+  if (closed_in == 0 && IN_N > 0 && delivered == IN_N) ASSERT(0, "the stdin write end is closed as soon as the payload is delivered");
+  clock_us += (uint64_t)clk_inc[t] * CLOCK_UNIT;
   return t++;
 }
-static void child_step(int j) {
-  if (exited) return;
-  uint64_t k = sched_wr[j];
-  if (k > W - written) k = W - written;
-  written += k;
-  if (written == W && sched_ex[j]) exited = 1;
+static int child_can_step(void) {
+  if (exited || next_ev >= NEV) return 0;
+  char k = evs[next_ev];
+  if (k == 'r') return delivered > child_read || closed_in;
+  if (k == 'e') return closed_in;
+  return 1;
 }
-static void child_next_action(void) { /* the child does the next thing it would eventually do */
-  if (exited) return;
-  if (written < W) written++; else exited = 1;
+/* how many bytes one read()/write() moves: 1, 2 or 3 (solver's choice per OS call), never more than `lim` */
+static uint64_t moved(int j, uint64_t lim) {
+  uint64_t k = 1;
+  if (lim >= 2 && mv2[j]) k = 2;
+  if (lim >= 3 && k == 2 && mv3[j]) k = 3;
+  return k;
 }
-static void child_finish(void) { written = W; exited = 1; }
+static void child_step(int j) { /* performs event next_ev (must be able to) */
+  char k = evs[next_ev];
+  if (k == 'w' || (k >= '1' && k <= '9')) { written += chunk[next_ev]; }
+  else if (k == 'c') { out_writer_open = 0; }
+  else if (k == 'k') { in_reader_open = 0; }
+  else if (k == 'r') { child_read += moved(j, delivered - child_read); }
+  else if (k == 'e') { child_read = delivered; }
+  else { exited = 1; out_writer_open = 0; in_reader_open = 0; }
+  next_ev++;
+}
+static void child_run(int j) { /* events scheduled for OS call j or earlier happen now */
+  for (int i = 0; i < NEV; i++)
+    if (i == next_ev && at[i] <= j && child_can_step()) child_step(j);
+}
 
 uint32_t STUB(gettimeofday)(uint8_t* tv, uint8_t* tz) {
   (void)tz;
+  ASSERT(!reaped, "the clock is not consulted for a child that has been reaped");
+  ASSUME(!reaped);
   int j = tick();
-  child_step(j);
-  clock_us += clock_inc[j];
-  if (clock_us > clock_max_seen) clock_max_seen = clock_us;
-  ((uint64_t*)tv)[0] = 1000;      /* tv_sec */
-  ((uint64_t*)tv)[1] = clock_us;  /* tv_usec */
+  child_run(j);
+  if (!clock_read) { clock_read = 1; first_clock = clock_us; }
+  if (clock_us > clock_seen_max) clock_seen_max = clock_us;
+  ((uint64_t*)tv)[0] = clock_us / 1000000u + 1000;
+  ((uint64_t*)tv)[1] = clock_us % 1000000u;
   return 0;
 }
 struct pfd { int32_t fd; int16_t events; int16_t revents; };
-static int16_t ready(struct pfd* p) {
+static int16_t ready(int32_t fd, int16_t events) {
   int16_t r = 0;
-  if (p->fd == OUT_FD && !closed_out) {
-    if ((p->events & POLLIN_) && written > consumed) r |= POLLIN_;
-    if (exited) r |= POLLHUP_;
+  if (fd == OUT_FD && !closed_out) {
+    if ((events & POLLIN_) && written > consumed) r |= POLLIN_;
+    if (!out_writer_open) r |= POLLHUP_;
+  }
+  if (fd == IN_FD && !closed_in) {
+    if ((events & POLLOUT_) && in_reader_open && delivered - child_read < in_cap) r |= POLLOUT_;
+    if (!in_reader_open) r |= POLLERR_;
   }
   return r;
 }
+static int poll_scan(struct pfd* fds, uint64_t n) {
+  int cnt = 0;
+  for (int i = 0; i < 2; i++) if ((uint64_t)i < n) {
+    ASSERT((fds[i].fd == OUT_FD && !closed_out) || (fds[i].fd == IN_FD && !closed_in), "poll only on open descriptors of this Subprocess");
+    fds[i].revents = ready(fds[i].fd, fds[i].events);
+    if (fds[i].revents) cnt++;
+  }
+  return cnt;
+}
 uint32_t STUB(poll)(uint8_t* fds_, uint64_t n, uint32_t timeout_ms) {
   struct pfd* fds = (struct pfd*)fds_;
+  ASSERT(!(reaped && timeout_ms != 0), "no waiting poll for a child that has been reaped");
+  ASSUME(!(reaped && timeout_ms != 0));
   int j = tick();
-  child_step(j);
+  child_run(j);
   ASSERT(n <= 2, "at most two descriptors are polled");
-  int cnt = 0;
-  for (int i = 0; i < 2; i++) if ((uint64_t)i < n) { fds[i].revents = ready(&fds[i]); if (fds[i].revents) cnt++; }
+  int cnt = poll_scan(fds, n);
   if (cnt == 0 && (int32_t)timeout_ms < 0) {
-    /* infinite timeout: blocks until something happens; with nothing registered that can happen it blocks forever */
-    int can = 0;
-    for (int i = 0; i < 2; i++) if ((uint64_t)i < n && fds[i].fd == OUT_FD && !closed_out) can = 1;
-    ASSERT(can, "poll(-1) can never return: deadlock");
-    ASSUME(can);
-    child_next_action();
-    for (int i = 0; i < 2; i++) if ((uint64_t)i < n) { fds[i].revents = ready(&fds[i]); if (fds[i].revents) cnt++; }
+    /* blocks until child steps make something ready */
+    for (int i = 0; i < NEV; i++) if (cnt == 0 && child_can_step()) { child_step(j); cnt = poll_scan(fds, n); }
+    ASSERT(cnt != 0, "poll(-1) can never return: deadlock");
+    ASSUME(cnt != 0);
+  } else if (cnt == 0 && timeout_ms > 0) {
+    /* up to fire_n[j] child steps happen during the wait (stopping as soon as something is ready) */
+    for (int i = 0; i < NEV; i++) if (cnt == 0 && i < fire_n[j] && child_can_step()) { child_step(j); cnt = poll_scan(fds, n); }
+    if (cnt == 0) clock_us += (uint64_t)timeout_ms * 1000u; /* the whole timeout elapsed */
   }
   return (uint32_t)cnt;
 }
 uint64_t STUB(read)(uint32_t fd, uint8_t* buf, uint64_t n) {
   int j = tick();
-  child_step(j);
+  child_run(j);
   ASSERT(fd == OUT_FD && !closed_out, "read on the open stdout pipe");
   uint64_t avail = written - consumed;
   if (avail == 0) {
-    ASSERT(exited, "blocking read on an empty pipe whose writer is alive (poll did not report it readable)");
+    ASSERT(!out_writer_open, "blocking read on an empty pipe whose writer is alive");
+    ASSUME(!out_writer_open);
     return 0;
   }
-  uint64_t k = sched_rd[j];
-  if (k < 1) k = 1;
-  if (k > avail) k = avail;
-  if (k > n) k = n;
-  for (uint64_t i = 0; i < WMAX; i++) if (i < k) buf[i] = data[consumed + i];
+  uint64_t k = moved(j, avail < n ? avail : n);
+  for (uint64_t i = 0; i < W; i++) if (i < k) buf[i] = data[consumed + i];
   consumed += k;
+  return k;
+}
+uint64_t STUB(write)(uint32_t fd, uint8_t* buf, uint64_t n) {
+  int j = tick();
+  child_run(j);
+  ASSERT(fd == IN_FD && !closed_in, "write on the open stdin pipe");
+  ASSERT(n >= 1 && n <= IN_N - delivered, "write passes the undelivered rest of the payload");
+  ASSUME(n >= 1 && n <= IN_N - delivered);
+  if (!in_reader_open) { SET_ERRNO(32); return (uint64_t)-1; } /* EPIPE */
+  uint64_t room = in_cap - (delivered - child_read);
+  ASSERT(room > 0, "blocking write on a full pipe (poll did not report it writable)");
+  ASSUME(room > 0);
+  uint64_t k = moved(j, room < n ? room : n);
+  for (uint64_t i = 0; i < IN_N; i++) if (i < k) got_in[delivered + i] = buf[i];
+  delivered += k;
   return k;
 }
 uint32_t STUB(waitpid)(uint32_t pid, uint8_t* st, uint32_t options) {
   int j = tick();
-  child_step(j);
+  child_run(j);
   ASSERT(pid == PID, "waitpid on the child");
-  if (reaped) { *(int32_t*)__errno_location_() = 10; return (uint32_t)-1; } /* ECHILD */
+  ASSERT(!reaped, "waitpid on a child that was already reaped");
+  ASSUME(!reaped);
   if (!exited) {
     if (options & WNOHANG_) return 0;
-    child_finish();
+    for (int i = 0; i < NEV; i++) if (!exited && child_can_step()) child_step(j);
+    ASSERT(exited, "blocking waitpid can never return: deadlock");
+    ASSUME(exited);
   }
-  reaped = 1;
+  reaped = 1; reap_count++;
   *(uint32_t*)st = status;
   return PID;
 }
 uint32_t STUB(kill)(uint32_t pid, uint32_t sig) {
   ASSERT(pid == PID, "kill on the child");
-  if (reaped) { *(int32_t*)__errno_location_() = 3; return (uint32_t)-1; } /* ESRCH */
-  if (sig == 9 && !exited) { exited = 1; killed = 1; status = 9; W = written; }
+  if (reaped) { SET_ERRNO(3); return (uint32_t)-1; } /* ESRCH */
+  if (sig == 9 && !exited) { exited = 1; killed = 1; status = 9; out_writer_open = 0; in_reader_open = 0; }
   return 0;
 }
 uint32_t STUB(close)(uint32_t fd) {
@@ -151,32 +245,62 @@ uint32_t STUB(close)(uint32_t fd) {
   return 0;
 }
 
+static int b36(char c) { return c <= '9' ? c - '0' : c - 'a' + 10; }
+
 void harness(void) {
-  uint8_t out[WMAX + 1];
-  in_bytes(data, WMAX);
-  W = in_range(0, WMAX);
-  status = (uint32_t)in_range(0, 255) << 8; /* normal exit with any code */
-  for (int j = 0; j <= TMAX; j++) {
-    sched_wr[j] = (uint8_t)in_range(0, WMAX);
-    sched_ex[j] = in_bool();
-    sched_rd[j] = (uint8_t)in_range(1, WMAX ? WMAX : 1);
-    clock_inc[j] = in_range(0, 400000);
+  uint8_t out[W + 1];
+  int64_t st[3] = {-2, -2, -2};
+  in_bytes(data, W);
+  in_bytes(payload, IN_N);
+  status = (uint32_t)in_range(0, 0xFFFF);
+  ASSUME((status & 0x7F) != 0x7F);                       /* not "stopped" */
+  ASSUME((status & 0x7F) == 0 || (status >> 8) == 0);    /* exit code or terminating signal (+ core flag) */
+  in_cap = CAP;
+  /* chunk sizes: every write event writes >= 1 byte, together W */
+  uint64_t sum = 0;
+  int nwr = 0;
+  for (int i = 0; i < NEV; i++) {
+    chunk[i] = 0;
+    if (evs[i] == 'w') { chunk[i] = in_range(1, W ? W : 1); sum += chunk[i]; nwr++; }
+    else if (evs[i] >= '1' && evs[i] <= '9') { chunk[i] = (uint64_t)(evs[i] - '0'); sum += chunk[i]; nwr++; }
   }
-  clock_us = 0;
-  int64_t st = -2;
-  int64_t r = w_communicate(IN_FD, OUT_FD, PID, data, 0, TIMEOUT, out, sizeof(out), &st);
-  OBS(r); OBS(st);
+  ASSUME(sum == W);
+  int prev = 0;
+  for (int i = 0; i < NEV; i++) {
+#ifdef SCHED
+    if (sched[i] != '?') at[i] = b36(sched[i]); else
+#endif
+    at[i] = (int)in_range(0, TMAX);
+    ASSUME(at[i] >= prev);
+    prev = at[i];
+  }
+  for (int j = 0; j <= TMAX; j++) {
+    mv2[j] = in_bool(); mv3[j] = in_bool();
+    fire_n[j] = (uint8_t)in_range(0, NEV);
+    clk_inc[j] = TIMEOUT ? (uint8_t)in_range(0, 3) : 0;
+  }
+  clock_us = (uint64_t)in_range(0, 5) * CLOCK_UNIT;
+  int64_t r = w_communicate(IN_FD, OUT_FD, PID, payload, IN_N, TIMEOUT, out, sizeof(out), st);
+  OBS(r); OBS(st[0]); OBS(st[1]); OBS(st[2]); OBS(t);
+  ASSERT(reap_count == 1 && reaped, "the child has been reaped exactly once when the Subprocess is gone");
+  ASSERT((st[1] == -1) == (closed_in != 0) && (st[1] == -1 || st[1] == IN_FD), "stdin_write_fd is -1 exactly when that descriptor was closed");
+  ASSERT((st[2] == -1) == (closed_out != 0) && (st[2] == -1 || st[2] == OUT_FD), "stdout_read_fd is -1 exactly when that descriptor was closed");
+  if (IN_N == 0) ASSERT(closed_in, "the unused stdin pipe was closed");
+  if (delivered == IN_N) ASSERT(closed_in, "stdin closed after complete delivery");
+  for (uint64_t i = 0; i < IN_N; i++) if (i < delivered) ASSERT(got_in[i] == payload[i], "the child receives the payload bytes in order");
   if (r < 0) {
 #if TIMEOUT == 0
     ASSERT(0, "communicate without a deadline returns instead of throwing");
 #else
-    ASSERT(clock_max_seen >= TIMEOUT, "communicate throws only when the deadline has really been reached");
+    ASSERT(r == -5, "only runtime_error is thrown");
+    ASSERT(clock_read && clock_seen_max >= first_clock + TIMEOUT, "communicate throws only when the deadline has really been reached");
+    ASSERT(killed, "a timed-out child is killed");
 #endif
   } else {
-    ASSERT(exited && reaped, "the child has exited and has been reaped when communicate returns");
+    ASSERT(exited && !killed, "communicate returns normally only after the child exited by itself");
+    ASSERT(next_ev == NEV, "the child ran its whole script");
     ASSERT((uint64_t)r == W, "communicate returns every byte the child wrote (nothing lost at exit)");
-    if ((uint64_t)r == W) for (uint64_t i = 0; i < WMAX; i++) if (i < W) ASSERT(out[i] == data[i], "communicate returns the child's bytes in order");
-    ASSERT(st == (int64_t)status, "the cached wait status is the child's");
-    ASSERT(closed_in, "the unused stdin pipe was closed");
+    if ((uint64_t)r == W) for (uint64_t i = 0; i < W; i++) ASSERT(out[i] == data[i], "communicate returns the child's bytes in order");
+    ASSERT(st[0] == (int64_t)status, "the cached wait status is the child's");
   }
 }
